@@ -167,8 +167,9 @@ def _components(nodes, adj):
 
 
 def _oracle_graph(N, filt):
-    """bipartite graph over leaders of groups without a peptide of their own, built from the
-    definition: nodes ("prot", leader) and ("pep", frozenset of leaders of the peptide's groups)"""
+    """bipartite graph over the groups without a peptide of their own, built from the definition (group level:
+    a peptide touches a group when ANY member is listed for it, so no member order is assumed): nodes
+    ("prot", index in N) and ("pep", frozenset of the indices of the peptide's groups)"""
     home = {p: i for i, g in enumerate(N) for p in g}
     ident = set()
     for _, _, ps in filt:
@@ -180,13 +181,13 @@ def _oracle_graph(N, filt):
     for i, g in enumerate(N):
         if i in ident:
             continue
-        a = ("prot", g[0])
+        a = ("prot", i)
         if a not in adj:
             adj[a] = set()
             nodes.append(a)
         for _, _, ps in filt:
-            if g[0] in ps:
-                b = ("pep", frozenset(N[home[p]][0] for p in ps))
+            if any(m in ps for m in g):
+                b = ("pep", frozenset(home[p] for p in ps if p in home))
                 if b not in adj:
                     adj[b] = set()
                     nodes.append(b)
@@ -576,7 +577,7 @@ class P(Prop):
                 for i in parts:
                     if i in ident:
                         return "group %r with a peptide of its own was merged into %r" % (N[i], g)
-                cs = {comp_of.get(("prot", N[i][0])) for i in parts}
+                cs = {comp_of.get(("prot", i)) for i in parts}
                 if len(cs) != 1 or None in cs:
                     return "groups %r were merged into %r but are not connected through shared peptides of groups without a peptide of their own" % (
                         [N[i] for i in parts],
@@ -600,10 +601,10 @@ class P(Prop):
                 if separable:
                     break
             if not separable:
-                homes = {home.get(p[1]) for p in Pn}
+                homes = {home.get(N[p[1]][0]) for p in Pn}
                 if len(homes) != 1:
                     return "inseparable connected set of groups led by %r was not merged into one group: %r" % (
-                        sorted(p[1] for p in Pn),
+                        sorted(N[p[1]] for p in Pn),
                         new,
                     )
         # -- "completely absorbed first-pass groups remain in the ranking only as placeholders and are never reported"
